@@ -4179,7 +4179,8 @@ def fix_raise_missing_from(source: str) -> str:
     if any(core.walk(root, (ast.Name(id="error"), ast.arg(arg="error")))):
         return  # The except clause would rebind and then delete a name that is in use
 
-    yield from processing.find_replace(source, find, replace, root=root)
+    # A bare raise has nothing to chain from
+    yield from processing.find_replace(source, find, replace, root=root, something=ast.AST)
 
 
 @processing.fix
